@@ -43,10 +43,10 @@ META = {
     "design_ref": "5.7 C04",
 }
 
-INVARIANTS = ["BytesOK", "FlagsOK", "PrefixOK", "KindOK", "CodeOK", "RowsFlagsOK"]
+INVARIANTS = ["BytesOK", "FlagsOK", "PrefixOK", "KindOK", "CodeOK", "RowsFlagsOK", "HeldOK"]
 ALL = ["SIMPLE", "ERROR", "EVENT", "ROWS", "PREPARED", "EVOLVE"]
 JVM = {"JAVA_TOOL_OPTIONS": "-XX:TieredStopAtLevel=1 -XX:ParallelGCThreads=2 -Xms1g"}      # short runs: no C2 warm-up
-WITNESSES = ["Witness_Evolution", "Witness_Warnings", "Witness_ReasonMap", "Witness_MetadataId", "Witness_ContPaging", "Witness_PkIndexes"]
+WITNESSES = ["Witness_StaleHeld", "Witness_Evolution", "Witness_Warnings", "Witness_ReasonMap", "Witness_MetadataId", "Witness_ContPaging", "Witness_PkIndexes"]
 
 
 def runs(ctx):
@@ -58,7 +58,7 @@ def runs(ctx):
 
 
 def case_key(st):
-    return hashlib.blake2b(json.dumps([st["c"], st["fx"]], sort_keys=True).encode(), digest_size=10).hexdigest()
+    return hashlib.blake2b(json.dumps([st["c"], st["fx"]], sort_keys=True).encode(), digest_size=10).hexdigest()   # c includes held
 
 
 def family_of(st):
